@@ -111,7 +111,7 @@ def run_corruptions(root: Path, case: Dict[str, Any]) -> Dict[str, Any]:
         if not m:
             continue
         log: List[Dict[str, Any]] = []
-        resolver = resolve.Resolver(call["seed"], null_p=case.get("null_p", 0.15))
+        resolver = resolve.Resolver(call["seed"], null_p=case.get("null_p", 0.15), custom_scalar_value=e2e.custom_values(case))
 
         def handler(request: Any) -> Any:
             body = json.loads(request.content)
@@ -275,9 +275,11 @@ def _any_conditional(frags: Dict[str, Any], sel_sets: List[Any], key: str) -> bo
 BUILTIN = {"Int", "Float", "String", "ID", "Boolean"}
 
 
-def expected(info: Dict[str, Any], point: Dict[str, Any], parent_info: Optional[Dict[str, Any]]) -> Tuple[Optional[bool], str]:
+def expected(info: Dict[str, Any], point: Dict[str, Any], parent_info: Optional[Dict[str, Any]], scalar_str: Any = ()) -> Tuple[Optional[bool], str]:
     """-> (must_be_rejected | None = not judged, cell label)"""
     act = point["action"]
+    if info["leaf"] in scalar_str:
+        info = {**info, "leaf": "String"}  # configured with the pydantic-native type `str`: as strict as String
     custom = info["leaf"] is not None and info["leaf"] not in BUILTIN and not info["enum"]
     if point["path"][-1] == "__typename":
         if act == "replace" and parent_info and parent_info.get("abstract"):
@@ -365,7 +367,7 @@ def corruption_run(ctx: Ctx, cases: List[Dict[str, Any]], res: Result, driver_ok
                         parent = position_info(schema, doc, call["op"], call["variables"], call["data"], pt["path"][:-1])
                     except Exception:
                         parent = None
-                must_reject, cell = expected(info, pt, parent)
+                must_reject, cell = expected(info, pt, parent, c.get("scalar_str", ()))
                 res.count("cell:" + cell)
                 res.distinct.add(common.stable_hash([c["sdl"], call["query"], pt["path"], pt["action"], pt.get("value")]))
                 if must_reject and pt["accepted"]:
@@ -452,10 +454,10 @@ def run(ctx: Ctx, st: Optional[LeanStatus]) -> Result:
     driver_ok = st is not None and st.driver_ok
     replay_corpus(ctx, res)
     if driver_ok:
-        rt_common.class_ir_correspondence(ctx, rt_common.draw_cases(ctx, "ir-default", ctx.budget(60, 600)), res, "default")
+        rt_common.class_ir_correspondence(ctx, rt_common.draw_cases(ctx, "ir-default", ctx.budget(200, 1500)), res, "default")
     else:
         res.mismatches.append(Mismatch("resultTypes", {}, "driver not built", None))
-    cases = rt_common.draw_cases(ctx, "corrupt", ctx.budget(40, 400), calls_per_op=1)
+    cases = rt_common.draw_cases(ctx, "corrupt", ctx.budget(48, 480), calls_per_op=1)
     corruption_run(ctx, cases, res, driver_ok)
     res.oracle_only += ["expectations come from graphql-core's collect_fields / type system applied to the sent document"]
     res.assumptions += ["pydantic-core's lax str->int/float/bool parsers are external: passed to the model as tables computed with the real library"]
